@@ -4,7 +4,9 @@ import (
 	"bufio"
 	"fmt"
 	"os"
+	"runtime/debug"
 	"strings"
+	"time"
 
 	"github.com/mit-pdos/go-nfsd/fh"
 	"github.com/mit-pdos/go-nfsd/nfs"
@@ -126,7 +128,8 @@ func (r *Runner) Step(o Op) Reply {
 		h2 = r.resolve(o.H2)
 	}
 	fmt.Fprintln(r.w, CallLine(o, h, h2))
-	rep := Exec(r.srv, o, h, h2)
+	r.w.Flush()
+	rep := r.execWatch(o, h, h2)
 	if rep.Kind == "handle" && rep.Code == 0 && o.Proc != "lookup" {
 		r.handles[o.Id] = rep.H
 	}
@@ -141,6 +144,36 @@ func (r *Runner) Step(o Op) Reply {
 	r.hist[fmt.Sprintf("%s/%d", o.Proc, rep.Code)]++
 	return rep
 }
+
+// execWatch runs the call under a watchdog: a call that does not return within the limit
+// is reported as a hang (the process exits, the trace so far is the replay).
+func (r *Runner) execWatch(o Op, h, h2 []byte) Reply {
+	ch := make(chan Reply, 1)
+	pc := make(chan interface{}, 1)
+	go func() {
+		defer func() {
+			if e := recover(); e != nil {
+				pc <- fmt.Sprintf("%v\n%s", e, debug.Stack())
+			}
+		}()
+		ch <- Exec(r.srv, o, h, h2)
+	}()
+	select {
+	case rep := <-ch:
+		return rep
+	case e := <-pc:
+		panic(e)
+	case <-time.After(WatchdogLimit):
+		fmt.Fprintf(r.w, "X hang\n")
+		r.w.Flush()
+		fmt.Fprintf(os.Stderr, "HANG in op %s\n", o.Sym())
+		fmt.Printf("[{\"index\":0,\"panic\":\"hang: %s did not return within %v\",\"nops\":%d}]\n", o.Proc, WatchdogLimit, r.nops)
+		os.Exit(3)
+	}
+	return Reply{}
+}
+
+var WatchdogLimit = 20 * time.Second
 
 func (r *Runner) Close() {
 	r.srv.ShutdownNfs()
